@@ -849,6 +849,13 @@ func (e *Engine) verifyFuncMode(fn *ssa.Function, ct *Contract, sweep bool, prop
 			x.frameCasesOnly(ct, posts, st0, "G_parked")
 		}
 	}
+	if !sweep && !errflow {
+		for _, c := range ct.Callsites {
+			if x.nameCount[fmt.Sprintf("callsite-hit:%d", c.Line)] == 0 {
+				e.specErrs = append(e.specErrs, fmt.Sprintf("%s:%d: callsite clause matches no call in %s", c.File, c.Line, fn.String()))
+			}
+		}
+	}
 	for _, r := range ct.Reveal {
 		ax, ok := e.opaqueDefs[r]
 		if !ok {
